@@ -68,14 +68,16 @@ def gen_one(rng, tier, scale=False):
             enabled = not enabled
             ops.append(['enable', enabled])
     ops.append(['process'])
-    return {'classes': classes, 'ops': ops}
+    # processors of different classes may compare equal (user __eq__)
+    return {'classes': classes, 'ops': ops,
+            'equal_all': rng.random() < 0.2}
 
 
 def gen_cases(tier, seed):
     for i in range(2 if tier == 'quick' else 32):
         yield gen_one(random.Random(f'C07/scale/{seed}/{tier}/{i}'), tier,
                       scale=True)
-    n = 3000 if tier == 'quick' else 16 * 10000
+    n = 2400 if tier == 'quick' else 16 * 10000
     for i in range(n):
         yield gen_one(random.Random(f'C07/{seed}/{tier}/{i}'), tier)
 
@@ -98,6 +100,10 @@ def run_case(case):
         ns['process'] = process
         if spec['prio'] is not None:
             ns['priority'] = spec['prio']
+        if case.get('equal_all'):
+            ns['__eq__'] = lambda self, other: isinstance(
+                other, desper.Processor)
+            ns['__hash__'] = lambda self: 7
         if 'a' in spec['shape']:
             def on_add(self, *args):
                 log.append(('add', self.uid, args,
@@ -222,7 +228,7 @@ def run_case(case):
                 by_type[t] = p
                 removed_ever.discard(p.uid)
                 want_life.append(expect_life('add', p))
-                pos = [x[2] for x in order].index(p)
+                pos = [id(x[2]) for x in order].index(id(p))
                 if 0 < pos < len(order) - 1 and len(order) >= 3:
                     prs = [x[0] for x in order]
                     if len(set(prs)) < len(prs):
@@ -374,7 +380,12 @@ def run_case(case):
         if not ok:
             break
         for p in instances:
-            if p.uid not in removed_ever and p in [x[2] for x in order]:
+            if case.get('equal_all'):
+                # handlers that compare equal alias each other in any
+                # registry keyed by the handler: is_handler is not judged
+                break
+            if p.uid not in removed_ever and any(
+                    p is x[2] for x in order):
                 if desper.event_handler and events[p.cls_index]:
                     if not w.is_handler(p):
                         fail(at, 'registration', f'handler processor {p.uid} '
